@@ -64,8 +64,12 @@ def main():
         sys.stdout.buffer.write(pickle.dumps(answer(sf, K, call), protocol=4))
         return
     if "--history" in sys.argv:
+        import struct
         from . import histsim
-        ops, passive, warn_mode = pickle.loads(sys.stdin.buffer.read())
+        # length-prefixed, read in one call: reading until EOF would allocate a number of chunks that
+        # depends on pipe timing, and with it the addresses everything after gets
+        (n,) = struct.unpack("<Q", sys.stdin.buffer.read(8))
+        ops, passive, warn_mode = pickle.loads(sys.stdin.buffer.read(n))
         sys.stdout.buffer.write(pickle.dumps(histsim.execute(sf, ops, passive, warn_mode), protocol=4))
         return
     if "--sim" in sys.argv:
